@@ -17,7 +17,7 @@ GROUPS.append(G("shr_CodeSHARED", "harness/C10/h_asmallg.c", "h_CodeSHARED", enf
                 object_bits=12, defs=["-DVERIF_SHARED"], functions=["CodeSHARED", "IntLine"], bounded="one or two arguments, integer symbols (float / string values not explored), no comment"))
 TRUSTED_BASE = ["GetFileNum / AddAddressRange logging stubs", "stubs of h_as_writecode.c"]
 ASSUMPTIONS = []
-NOT_COVERED = ["WrLstLine (page-width splitting; a harness exists in harness/C19/h_asmsub.c under VERIF_WRLST but exhausts 14 GB even for 2-character lines, not registered)", "MakeList for lines of more than 12 bytes (bounded) and of more than 65535 bytes (16-bit EffLen)", "PrintSymbolList / PrintDebSymbols / CodeSHARED (symbol values in listing, MAP and share file)", "BookKeeping (asmsub.c) argument passing", "Atmel/NoICE debug formats"]
+NOT_COVERED = ["WrLstLine (page-width splitting; a harness exists in harness/C19/h_asmsub.c under VERIF_WRLST but exhausts 14 GB even for 2-character lines, not registered)", "MakeList for lines of more than 12 bytes (bounded) and of more than 65535 bytes (16-bit EffLen)", "PrintSymbolList / PrintDebSymbols (symbol values in listing and MAP file); SHARED with float / string symbols and comments", "BookKeeping (asmsub.c) argument passing", "Atmel/NoICE debug formats"]
 EXPLANATION = ("Kernel only: WriteCode hands the line's segment, start address and length to the bookkeeping before the counter advances, and AddLineInfo "
                "stores exactly one (segment, file, line, address) record per line without losing earlier ones. The listing columns and the symbol "
                "sections of listing/MAP/share file are not under contract.")
@@ -25,6 +25,6 @@ MANIFEST = dict(
     category="other",
     text="Contracts on the kernel: WriteCode (bookkeeping sees segment/address/length of the line before the program counter moves, same address the "
          "code-file writer sees) and AddLineInfo (exactly one MAP record with the line's segment, file, line and address; earlier records kept), BookKeeping (usage map, section usage and debug records all get the LOAD address of the line) and GenerateProcessor (macro / repetition levels start from the calling line). "
-         "MakeList (bounded: lines of <= 12 bytes): every listing line shows the address of the first code unit printed on it and the line's code is shown completely, in order, each unit once, for every (granularity, listing granularity) pair and every column width. The symbol tables of listing, MAP and share file are named unverified.",
+         "MakeList (bounded: lines of <= 12 bytes): every listing line shows the address of the first code unit printed on it and the line's code is shown completely, in order, each unit once, for every (granularity, listing granularity) pair and every column width. SHARED (share file): one line per argument that names a defined symbol, with the name, the value the symbol table holds and the syntax of the share-file mode, in argument order. The symbol tables of listing and MAP file are named unverified.",
     note="Bounded: debug list <= 2 earlier records. Trusted: logging stubs.",
 )
